@@ -2459,6 +2459,11 @@ int _vnaproperty_yaml_export(vnaproperty_yaml_t *vymlp,
 	    int sequence;
 	    int count = vnaproperty_count(root, "[]");
 
+	    if (count == -1) {
+		_vnaproperty_yaml_error(vymlp, VNAERR_SYSTEM,
+			"vnaproperty_count: %s", strerror(errno));
+		return -1;
+	    }
 	    errno = 0;
 	    if ((sequence = yaml_document_add_sequence(document, NULL,
 			    YAML_BLOCK_SEQUENCE_STYLE)) == 0) {
